@@ -538,7 +538,7 @@ def gen_table(rng, nmax=8, alphabet=None):
     return {"op": "new", "index": "name",
             "cols": [["name", [rng.choice(al) for _ in range(n)]],
                      ["v", list(range(n))],
-                     ["w", [rng.randint(0, 3) for _ in range(n)]],
+                     ["w", [rng.randint(-2, 3) for _ in range(n)]],
                      ["s", ["s%d" % rng.randint(0, 2) for _ in range(n)]]]}
 
 
@@ -582,7 +582,7 @@ def gen_sel(rng, n, col, depth=0):
             return ["all"]
         return ["slice", rng.choice(["s0", "s1", None]), rng.choice(["s1", "s2", None]), "s"]
     if r < 0.84:
-        return ["slice", rng.choice([None, 0, 1, 2]), rng.choice([None, 1, 2, 5]), rng.choice(["v", "w"])]
+        return ["slice", rng.choice([None, -1, 0, 0, 1, 2]), rng.choice([None, -1, 0, 0, 1, 2, 5]), rng.choice(["v", "w", "w"])]
     if r < 0.94 or depth > 0:
         return ["slice", rng.choice([None, 0, 1, -2]), rng.choice([None, 1, 3, -1]), rng.choice([None, 1, 2, -1])]
     return ["tuple", [gen_sel(rng, n, col, 1), gen_sel(rng, n, col, 1)]]
@@ -686,6 +686,7 @@ def exhaustive_c08(sess_factory, k):
     battery = [["pat", "a"], ["pat", "a::0"], ["pat", "a::1"], ["pat", "a::-1"], ["pat", "[ab]::-1"], ["pat", ".*::1"],
                ["pat", "a.*"], ["pat", "b<<1"], ["pat", "[ab]::0>>1"], ["slice", "a", "b", None], ["slice", None, "b", None],
                ["slice", 1, None, "v"], ["slice", None, 1, "v"], ["slice", 1, 2, "w"], ["slice", None, None, "w"],
+               ["slice", 0, None, "w"], ["slice", None, 0, "w"], ["slice", 0, 0, "w"], ["slice", -1, 0, "w"], ["slice", 0, 1, "w"],
                ["slice", None, None, -1], ["bools", None], ["names", ["a", "b::-1"]],
                ["tuple", [["pat", "[ab]"], ["pat", "b::-1"]]], ["tuple", [["slice", 1, None, None], ["pat", "a"]]]]
     hid = 100000
@@ -695,7 +696,7 @@ def exhaustive_c08(sess_factory, k):
             hid += 1
             col = list(combo)
             sess.step({"op": "new", "index": "name", "cols": [["name", col], ["v", list(range(n))],
-                                                              ["w", [i % 3 for i in range(n)]], ["s", ["s%d" % (i % 2) for i in range(n)]]]})
+                                                              ["w", [i % 3 - 1 for i in range(n)]], ["s", ["s%d" % (i % 2) for i in range(n)]]]})
             for sel in battery:
                 if sel[0] == "bools":
                     sel = ["bools", [i % 2 == 0 for i in range(n)]]
